@@ -7,6 +7,7 @@ import (
 	"errors"
 	"io"
 	"net/http"
+	"sort"
 	"strconv"
 	"strings"
 	"sync"
@@ -216,7 +217,7 @@ func (p *polling) onDataRequest(ctx *types.HttpContext) {
 	})
 
 	// The following process in nodejs is asynchronous.
-	ctx.ResponseHeaders.With(p.headers(ctx, headers).All())
+	mergeResponseHeaders(ctx, p.headers(ctx, headers))
 	ctx.SetStatusCode(http.StatusOK)
 	io.WriteString(ctx, "ok")
 }
@@ -368,7 +369,7 @@ func (p *polling) DoWrite(ctx *types.HttpContext, data types.BufferInterface, op
 		defer callback(nil)
 
 		headers.Set("Content-Length", length)
-		ctx.ResponseHeaders.With(p.headers(ctx, headers).All())
+		mergeResponseHeaders(ctx, p.headers(ctx, headers))
 		ctx.SetStatusCode(http.StatusOK)
 		io.Copy(ctx, data)
 	}
@@ -510,6 +511,29 @@ func (p *polling) Discard() {
 	p.Transport.Discard()
 	if shouldClose := p.shouldClose.Swap(nil); shouldClose != nil {
 		(*shouldClose)()
+	}
+}
+
+// Joins the fields of a response's headers bag to what the middlewares have
+// scheduled on the context: names are folded to their canonical form (in a
+// fixed order), and the list fields Vary and Set-Cookie accumulate instead of
+// replacing what is there (the CORS middleware's "Vary: Origin").
+func mergeResponseHeaders(ctx *types.HttpContext, headers *utils.ParameterBag) {
+	all := headers.All()
+	keys := headers.Keys()
+	sort.Strings(keys)
+	merged := http.Header{}
+	for _, k := range keys {
+		for _, v := range all[k] {
+			merged.Add(k, v)
+		}
+	}
+	for k, v := range merged {
+		if k == "Vary" || k == "Set-Cookie" {
+			existing, _ := ctx.ResponseHeaders.Gets(k)
+			v = append(existing, v...)
+		}
+		ctx.ResponseHeaders.With(map[string][]string{k: v})
 	}
 }
 
